@@ -133,6 +133,30 @@ def build_traces(path, tier, seed):
             scale = abs(al) * float(np.max(np.abs(x))) + abs(be) * float(np.max(np.abs(b)))
             add({"kind": "rel", "law": "lin", "clause": "FilterLinear", "tol": enc(1e-8), "scale": enc(scale), "f": enc(al), "g": enc(be),
                  "x": enc_seq(outs[0]), "y": enc_seq(outs[1]), "z": enc_seq(outs[2])}, {"kind": "rel", "law": "FilterLinear", "ftype": ftype, "order": order, "n": n})
+    # --- call history: a low-pass and a high-pass with the SAME order and cut-off one after the other (either order),
+    #     on the same and on different objects (what Cluster.combine_motions does)
+    for j in range(4 if tier == "quick" else 24):
+        dt = [0.01, 0.02][j % 2]
+        order = 1 + j % 4
+        fc = float([2.0, 1.0, 5.0][j % 3])
+        f = float(fc * [0.25, 4.0, 0.7, 1.4][j % 4])
+        n = int(max(400, 60 * max(1 / fc, 1 / f) / dt))
+        t = np.arange(n) * dt
+        x = np.sin(2 * np.pi * f * t + 0.3)
+        first, second = (("low", (None, fc)), ("high", (fc, None))) if j % 2 == 0 else (("high", (fc, None)), ("low", (None, fc)))
+        o1 = eqsig.AccSignal(x.copy(), dt)
+        o1.butter_pass(first[1], filter_order=order)
+        o2 = o1 if j % 3 == 0 else eqsig.Signal(x.copy(), dt)
+        if o2 is o1:
+            o2.reset_values(x.copy())
+        o2.butter_pass(list(second[1]), filter_order=order)
+        y = np.asarray(o2.values, dtype=float)
+        sel = np.linspace(n // 4, (3 * n) // 4 - 1, 200).astype(int)
+        cut = second[1]
+        add({"kind": "gain", "dt": enc(dt), "n": n, "ftype": second[0], "order": order, "f1": enc(cut[0] if cut[0] is not None else 0.0),
+             "f2": enc(cut[1] if cut[1] is not None else 0.0), "f": enc(f), "raised": False, "dtout": enc(float(o2.dt)), "nout": int(o2.npts),
+             "x": enc_seq(x[sel]), "y": enc_seq(y[sel])},
+            {"kind": "gain", "history": "%s-pass after %s-pass, same order %d and cut-off %.1f Hz" % (second[0], first[0], order, fc), "f": f, "dt": dt, "n": n})
     # --- detrending, degrees 0..4
     ndet = 25 if tier == "quick" else 200
     for i in range(ndet):
